@@ -283,7 +283,17 @@ def rule_tracker_lifecycle(ctx, crate, rule="R-TRACKER-LIFECYCLE"):
             ok = ok and x.slice_args(c, [1], through_calls=False).has_field("state", "state::BarState")
             if cond:
                 ok = ok and K.in_variant_region(x, crate, c.bb, "state::Reset", {cond})
+                # trackers are handed the state *after* the bar itself was reset
+                st_writes = [k.bb for k in x.calls(r"state::AtomicPosition::reset", r"state::Estimator::reset")] + \
+                    [i for i, j, s_ in x.assigns() if [f[2] for f in place_fields(s_["lhs"])][-1:] in (["status"], ["started"])]
+                late = [w for w in st_writes if w in x.reach_after(c.bb) and c.bb not in x.reach_after(w)]
+                ctx.check(not late, rule, "reset-sees-reset-state", x.name, c.loc(), "trackers are reset after the bar's own state was reset (they receive the current state)",
+                          "ProgressTracker::reset is called before the bar's own state is reset: the tracker receives the stale position/status", cfg)
             else:
+                rec = x.calls(r"state::Estimator::record")
+                late = [r for r in rec if r.bb in x.reach_after(c.bb) and c.bb not in x.reach_after(r.bb)]
+                ctx.check(not late, rule, "tick-sees-current-estimate", x.name, c.loc(), "trackers are ticked after the estimator recorded the new position",
+                          "ProgressTracker::tick is called before the estimator is updated", cfg)
                 draws = x.calls(r"state::BarState::draw")
                 ok = ok and bool(draws) and all(d.bb in x.reach_after(c.bb) and c.bb not in x.reach_after(d.bb) for d in draws)
         ctx.check(ok, rule, "%s-all-trackers" % meth, x.name, K.fn_loc(x),
